@@ -1,8 +1,139 @@
-(* C08 — placeholder while the pipeline is brought up *)
-From Coq Require Import List ZArith Bool.
-From FB Require Import Model.Tracker Model.TrackerWire Judge.E3.
+(* C08 — Recovery requests are never lost by merging and replicate as full snapshots.
+   This file contains only statements, each closed by [exact lemma], non-vacuity Examples and
+   [Print Assumptions].  Models: Model/Tracker.v (the tracker), Model/TrackerWire.v (message
+   entry points, replicas, compaction), Model/TrackerGhost.v (ghost history).  Statement as a
+   decision procedure on observations: Judge/E3.v [spec_c08]. *)
+From Coq Require Import List ZArith Bool Lia.
+From FB Require Import Lib.Eqb Model.Tracker Model.TrackerWire Judge.E3
+  Proofs.TrackerProofs Proofs.E3SpecProofs.
 Import ListNotations.
 Open Scope Z_scope.
-Example C08_model_runs : spec_c08 {| i_parts := [0]; i_ops := [XAdd 0 1 5; XAdd 0 5 9; XComplete 0 9] |}
-   (model_obs {| i_parts := [0]; i_ops := [XAdd 0 1 5; XAdd 0 5 9; XComplete 0 9] |}) = [].
-Proof. vm_compute. reflexivity. Qed.
+
+(* ---------- filing a range ---------- *)
+(* Exact cover, for every state (well-formed or not), every range, every offset: after
+   AddRecoveryRequest the offsets wanted for p are those wanted before plus the filed range;
+   nothing is lost by the hull-widening merge and nothing is invented by it, although EVERY
+   overlapped request is widened in place with the ORIGINAL (f,t).  Reading [from,to): *)
+Theorem C08_add_cover : forall s p f t x,
+  covered (ts (add s p f t)) p x = covered s p x || in_req x (f, t).
+Proof. exact add_cover. Qed.
+
+(* ... and for the reading (from,to] that the recovery consumer uses *)
+Theorem C08_add_cover_oc : forall s p f t x,
+  covered_oc (ts (add s p f t)) p x = covered_oc s p x || in_req_oc x (f, t).
+Proof. exact add_cover_oc. Qed.
+
+(* filing never fails, touches no other partition, and broadcasts exactly the new list of p *)
+Theorem C08_add_frame : forall s p f t,
+  terr (add s p f t) = false
+  /\ tout (add s p f t) = [(p, merged f t (lk p s))]
+  /\ lookup p (ts (add s p f t)) = Some (merged f t (lk p s))
+  /\ forall q, q <> p -> lookup q (ts (add s p f t)) = lookup q s.
+Proof. exact add_frame_full. Qed.
+
+(* birth order is kept: no overlap -> appended behind everything else; otherwise every request
+   keeps its position and is widened to the hull exactly when it passes the overlap test *)
+Theorem C08_add_order : forall s p f t,
+  lookup p (ts (add s p f t)) = Some (merged f t (lk p s))
+  /\ (existsb (overlaps f t) (lk p s) = false -> merged f t (lk p s) = lk p s ++ [(f, t)])
+  /\ (existsb (overlaps f t) (lk p s) = true ->
+      merged f t (lk p s)
+      = map (fun r => if overlaps f t r then (Z.min f (fst r), Z.max t (snd r)) else r) (lk p s)).
+Proof. exact add_order. Qed.
+
+(* ---------- a progress update or completion affects only the request it names ---------- *)
+(* the update is accepted exactly when the FIRST request of p ends at t; then only that request's
+   from changes (to whatever f is: raising or lowering) and the new list is broadcast *)
+Theorem C08_update_only_head : forall s p f t,
+  (forall f0 rest, lookup p s = Some ((f0, t) :: rest) ->
+     update s p f t = {| ts := set p ((f, t) :: rest) s; terr := false; tout := [(p, (f, t) :: rest)] |})
+  /\ ((forall f0 rest, lookup p s <> Some ((f0, t) :: rest)) ->
+     update s p f t = {| ts := s; terr := true; tout := [] |})
+  /\ (terr (update s p f t) = false <-> exists f0 rest, lookup p s = Some ((f0, t) :: rest)).
+Proof. exact update_only_head. Qed.
+
+(* completion removes exactly the requests of p ending at t (ALL of them), keeps the order of the
+   others, and is refused when there is none *)
+Theorem C08_complete_only_named : forall s p t,
+  (forall rs, lookup p s = Some rs -> existsb (ends_at t) rs = true ->
+     complete s p t = {| ts := set p (filter (fun r => negb (ends_at t r)) rs) s; terr := false;
+                         tout := [(p, filter (fun r => negb (ends_at t r)) rs)] |})
+  /\ ((forall rs, lookup p s = Some rs -> existsb (ends_at t) rs = false) ->
+     complete s p t = {| ts := s; terr := true; tout := [] |}).
+Proof. exact complete_only_named. Qed.
+
+(* every operation: a refused call changes nothing and broadcasts nothing *)
+Theorem C08_errors_change_nothing : forall s o,
+  terr (tstep s o) = true -> ts (tstep s o) = s /\ tout (tstep s o) = [].
+Proof. exact tstep_err. Qed.
+
+(* every operation that addresses a partition leaves all other partitions untouched *)
+Theorem C08_other_partitions_untouched : forall s o p q,
+  op_part o = Some p -> q <> p -> lookup q (ts (tstep s o)) = lookup q s.
+Proof. exact tstep_frame. Qed.
+
+(* ---------- every change is broadcast as a complete snapshot ---------- *)
+(* whatever is broadcast under key k is the complete list now held for k ... *)
+Theorem C08_broadcast_is_snapshot : forall s o k rs,
+  In (k, rs) (tout (tstep s o)) -> lookup k (ts (tstep s o)) = Some rs.
+Proof. exact tstep_out_snapshot. Qed.
+
+(* ... and a key for which nothing is broadcast did not change (unless the call was the receipt
+   of a snapshot for that key from another instance) *)
+Theorem C08_change_is_broadcast : forall s o k,
+  ~ In k (map fst (tout (tstep s o))) -> recv_part o <> Some k ->
+  lookup k (ts (tstep s o)) = lookup k s.
+Proof. exact tstep_quiet. Qed.
+
+(* a replica applying messages in order holds, per key, the last list sent under that key;
+   applying only the last message per key (log compaction) gives the same *)
+Theorem C08_replica_holds_last : forall r msgs p,
+  lookup p (apply_all r msgs) = match last_bcast p msgs with Some rs => Some rs | None => lookup p r end.
+Proof. exact apply_all_lookup. Qed.
+
+Theorem C08_compaction_equivalent : forall r msgs p,
+  lookup p (apply_all r (compact msgs)) = lookup p (apply_all r msgs).
+Proof. exact replica_all_or_last. Qed.
+
+(* The snapshot-replica theorem, for every history h1 ++ h2 from every state, every replica start
+   state r: if during h2 partition p is broadcast at least once and not overwritten by a snapshot
+   received from elsewhere, then the replica fed every message and the replica fed only the last
+   message per key both hold for p exactly the origin's list. *)
+Theorem C08_snapshot_replica : forall h1 h2 s r p,
+  no_recv_on p h2 = true ->
+  In p (map fst (sent_of (snd (xrun (fst (xrun s h1)) h2)))) ->
+  let origin := fst (xrun s (h1 ++ h2)) in
+  let msgs := sent_of (snd (xrun s (h1 ++ h2))) in
+  lookup p (apply_all r msgs) = lookup p origin
+  /\ lookup p (apply_all r (compact msgs)) = lookup p origin
+  /\ exists rs, lookup p origin = Some rs.
+Proof. exact snapshot_replica. Qed.
+
+(* hypotheses satisfiable: three-way merge, update, completion; partition 0 is broadcast in h2 *)
+Example C08_snapshot_replica_inhabited :
+  let h1 := [XAdd 0 0 5; XAdd 0 10 15; XAdd 1 7 9] in
+  let h2 := [XAdd 0 4 15; XUpdate 0 2 15; XMsg 0 [49] (Some [(1, 2)])] in
+  no_recv_on 0 h2 = true
+  /\ In 0 (map fst (sent_of (snd (xrun (fst (xrun [] h1)) h2))))
+  /\ lookup 0 (fst (xrun [] (h1 ++ h2))) = Some [(2, 15); (4, 15)].
+Proof. vm_compute. repeat split. left. reflexivity. Qed.
+
+(* the decision procedure evaluated on the implementation's observations accepts the model on
+   EVERY history *)
+Theorem C08_spec_sound : forall i, spec_c08 i (model_obs i) = [].
+Proof. exact spec_c08_sound. Qed.
+
+Print Assumptions C08_add_cover.
+Print Assumptions C08_add_cover_oc.
+Print Assumptions C08_add_frame.
+Print Assumptions C08_add_order.
+Print Assumptions C08_update_only_head.
+Print Assumptions C08_complete_only_named.
+Print Assumptions C08_errors_change_nothing.
+Print Assumptions C08_other_partitions_untouched.
+Print Assumptions C08_broadcast_is_snapshot.
+Print Assumptions C08_change_is_broadcast.
+Print Assumptions C08_replica_holds_last.
+Print Assumptions C08_compaction_equivalent.
+Print Assumptions C08_snapshot_replica.
+Print Assumptions C08_spec_sound.
